@@ -139,7 +139,15 @@ func (g *Graph) Canon() error {
 	}
 	g.renumber(on.Mapping(), false)
 
-	if on.Dupe {
+	// The sort notices a duplicate only if it happens to compare the two
+	// nodes, which it need not do when one of them is the root (the root is
+	// forced first whatever it holds). Look for duplicates explicitly.
+	dupe := on.Dupe
+	for i := 1; i < len(g.Nodes) && !dupe; i++ {
+		dupe = g.Nodes[i].Compare(g.Nodes[0]) == 0 || i > 1 && g.Nodes[i].Compare(g.Nodes[i-1]) == 0
+	}
+
+	if dupe {
 		// If there were duplicate nodes, the prior sort did not yield a
 		// canonical ordering. Perform a more expensive BFS canonicalisation.
 		// Unfortunately this needs to be done after the edge/root renumbering
